@@ -84,7 +84,12 @@ def check(run, tier):
                 op, amount = "remove", rr.randint(0, cur[c] - mn)
             else:
                 op, amount = "add", rr.randint(0, mx - cur[c])
-            steps.append({"op": op, "col": c, "amount": amount})
+            st = {"op": op, "col": c, "amount": amount}
+            if amount >= 2 and rr.random() < 0.4:
+                # one call that names the same real well twice (two virtual rows of a trough column): the two parts add up
+                # to the amount "in decimal terms"; in floats (v + a) + b and v + (a + b) may differ by one unit in the last place
+                st["first"] = rr.randint(1, amount - 1)
+            steps.append(st)
             # whether the step is accepted is float noise; continue from a fresh random level either way is not possible,
             # so the decimal book-keeping assumes acceptance (a rejected step just leaves the well where it was)
             cur[c] = cur[c] - amount if op == "remove" else cur[c] + amount
